@@ -621,7 +621,81 @@ func compactFieldIDs(b []byte) (ids []int, ok bool) {
 	return ids, false
 }
 
+type c13Core struct {
+	X int32  `thrift:"1"`
+	Y int32  `thrift:"2"`
+	Z int32  `thrift:"3"`
+	W string `thrift:"4"`
+}
+type c13Inner struct{ c13Core }
+type c13Middle struct{ c13Inner }
+type c13Outer struct{ c13Middle }
+type c13Outermost struct {
+	c13Outer
+	V int32 `thrift:"9"`
+}
+
+// fields reached through three and more levels of embedding (by value and through a pointer): each under its own id
+func c13DeepEmbedding(c *Ctx) {
+	for _, v := range []any{c13Outer{c13Middle{c13Inner{c13Core{1, 2, 3, "w"}}}}, c13Outermost{c13Outer{c13Middle{c13Inner{c13Core{1, 2, 3, "w"}}}}, 9}, c13Middle{c13Inner{c13Core{1, 2, 3, "w"}}}} {
+		for _, pn := range protoNames {
+			p := protoOf(pn)
+			k := thriftCase{Proto: pn, What: "declaration orders: deep embedding by value"}
+			var b []byte
+			var err error
+			c.Case()
+			c.Eval(1)
+			if pan := protect(func() { b, err = thrift.Marshal(p, v) }); pan != "" || err != nil {
+				c.Diverge("C13", "thrift.Marshal(fields behind three levels of embedding)["+pn+"]", "bytes", fmt.Sprintf("%v %s", err, pan), "", k)
+				continue
+			}
+			if pn == "compact" {
+				want := []byte{0x15, 2, 0x15, 4, 0x15, 6, 0x18, 1, 'w'}
+				if _, ok := v.(c13Outermost); ok {
+					want = append(want, 0x55, 18)
+				}
+				want = append(want, 0)
+				if !bytes.Equal(b, want) {
+					c.Diverge("C13", "thrift.Marshal(fields behind three levels of embedding)[compact]", hex.EncodeToString(want), hex.EncodeToString(b), "", k)
+					continue
+				}
+			}
+			back := reflect.New(reflect.TypeOf(v))
+			if pan := protect(func() { err = thrift.Unmarshal(p, b, back.Interface()) }); pan != "" || err != nil || !reflect.DeepEqual(back.Elem().Interface(), v) {
+				c.Diverge("C13", "thrift.Unmarshal(Marshal(v))(fields behind three levels of embedding)["+pn+"]", fmt.Sprintf("%+v", v), fmt.Sprintf("%+v err=%v %s", back.Elem().Interface(), err, pan), "", k)
+			}
+		}
+	}
+	l3 := EmbL3{A: 11, B: 22, C: "c", H: 88}
+	v := EmbTop{EmbL0: EmbL0{EmbL1: EmbL1{EmbL2: &EmbL2{EmbL3: l3, D: 4}, F: true}, G: "g"}, I: 7}
+	for _, pn := range protoNames {
+		p := protoOf(pn)
+		k := thriftCase{Proto: pn, What: "declaration orders: deep embedding"}
+		var b []byte
+		var err error
+		c.Case()
+		c.Eval(1)
+		if pan := protect(func() { b, err = thrift.Marshal(p, v) }); pan != "" || err != nil {
+			c.Diverge("C13", "thrift.Marshal(fields behind three levels of embedding)["+pn+"]", "bytes", fmt.Sprintf("%v %s", err, pan), "", k)
+			continue
+		}
+		if pn == "compact" {
+			// i32 11 under id 1, i32 22 under 2, "c" under 3, i32 4 under 4, true under 5, "g" under 6, i16 7 under 7, i64 88 under 8
+			want := []byte{0x15, 22, 0x15, 44, 0x18, 1, 'c', 0x15, 8, 0x11, 0x18, 1, 'g', 0x14, 14, 0x16, 176, 1, 0}
+			if !bytes.Equal(b, want) {
+				c.Diverge("C13", "thrift.Marshal(fields behind three levels of embedding)[compact]", hex.EncodeToString(want), hex.EncodeToString(b), "", k)
+				continue
+			}
+		}
+		var back EmbTop
+		if pan := protect(func() { err = thrift.Unmarshal(p, b, &back) }); pan != "" || err != nil || !reflect.DeepEqual(back, v) {
+			c.Diverge("C13", "thrift.Unmarshal(Marshal(v))(fields behind three levels of embedding)["+pn+"]", fmt.Sprintf("%+v", v), fmt.Sprintf("%+v err=%v %s", back, err, pan), "", k)
+		}
+	}
+}
+
 func c13DeclarationOrders(c *Ctx) {
+	c13DeepEmbedding(c)
 	vals := []c13Desc{
 		{F30: 30, F2: 2, F17: "s", c13Emb: c13Emb{E1: 1, E9: true}, F3: true, F16: 16},
 		{F30: 30, F2: 2}, {F2: 2, c13Emb: c13Emb{E1: 1}}, {F17: "x", F16: 16}, {F30: 1, F3: true}, {c13Emb: c13Emb{E9: true}, F3: true},
@@ -1069,7 +1143,57 @@ func c04Known(c *Ctx) {
 	}
 }
 
+// c04Spans: struct types whose field ids span 63, 64, 65, 127, 128, 129 ... slots (the decoders keep one bit per id
+// between the smallest and the largest): round trips, with and without required fields
+func c04Spans(c *Ctx) {
+	for _, span := range []int{1, 2, 63, 64, 65, 127, 128, 129, 191, 192, 193, 256, 1024} {
+		for _, lo := range []int{1, 7} {
+			for _, req := range []bool{false, true} {
+				ids := []int{lo, lo + span/2, lo + span - 1}
+				if span < 3 {
+					ids = ids[:span]
+					if span == 2 {
+						ids = []int{lo, lo + 1}
+					}
+				}
+				var fs []reflect.StructField
+				seen := map[int]bool{}
+				for _, id := range ids {
+					if seen[id] {
+						continue
+					}
+					seen[id] = true
+					tag := fmt.Sprintf(`thrift:"%d"`, id)
+					if req {
+						tag = fmt.Sprintf(`thrift:"%d,required"`, id)
+					}
+					fs = append(fs, reflect.StructField{Name: "F" + strconv.Itoa(id), Type: reflect.TypeOf(int32(0)), Tag: reflect.StructTag(tag)})
+				}
+				t := reflect.StructOf(fs)
+				v := reflect.New(t).Elem()
+				for i := 0; i < v.NumField(); i++ {
+					v.Field(i).SetInt(int64(i + 1))
+				}
+				for _, pn := range protoNames {
+					p := protoOf(pn)
+					k := thriftCase{Proto: pn, What: fmt.Sprintf("known: spans %d from %d required=%v", span, lo, req)}
+					out := reflect.New(t)
+					var err error
+					c.Case()
+					c.Eval(1)
+					b, merr := thrift.Marshal(p, v.Interface())
+					if pan := protect(func() { err = thrift.Unmarshal(p, b, out.Interface()) }); pan != "" || merr != nil || err != nil || !reflect.DeepEqual(out.Elem().Interface(), v.Interface()) {
+						c.Diverge("C04", "thrift.Unmarshal(Marshal(v))(field ids spanning a multiple of 64)["+pn+"]", fmt.Sprintf("%+v", v.Interface()),
+							fmt.Sprintf("%+v %v %v %s", out.Elem().Interface(), merr, err, pan), "", k)
+					}
+				}
+			}
+		}
+	}
+}
+
 func c04Embedded(c *Ctx) {
+	c04Spans(c)
 	c04Known(c)
 	c04Recursive(c)
 	l3 := EmbL3{A: 11, B: 22, C: "c", H: 88}
@@ -1949,6 +2073,38 @@ func c08Messages(c *Ctx) {
 				case cut > 0 && cut < len(b) && (err == nil || errors.Is(err, io.EOF) && !isUnexpectedEOF(err)):
 					c.Diverge("C08", "Reader.ReadMessage(cut short)["+pn+"]", "an unexpected-EOF class error", fmt.Sprintf("err=%v (first %d of %d bytes)", err, cut, len(b)), "", k)
 				}
+			}
+		}
+	}
+	// message headers whose name length is negative or far beyond the input: an error, no panic, no huge allocation
+	for _, pn := range protoNames {
+		p := protoOf(pn)
+		var buf bytes.Buffer
+		p.NewWriter(&buf).WriteMessage(thrift.Message{Type: thrift.Call, Name: "abcd", SeqID: 1})
+		b := buf.Bytes()
+		at := bytes.Index(b, []byte("abcd"))
+		if at < 0 {
+			continue
+		}
+		for _, ln := range [][]byte{{0xff, 0xff, 0xff, 0xff}, {0x80, 0x00, 0x00, 0x00}, {0x7f, 0xff, 0xff, 0xff}, {0xff, 0xff, 0xff, 0xff, 0x0f}, {0xff, 0xff, 0xff, 0xff, 0xff, 0xff, 0xff, 0xff, 0xff, 0x01}} {
+			lenAt := at - 4
+			if pn == "compact" {
+				lenAt = at - 1
+				if len(ln) == 4 {
+					continue
+				}
+			} else if len(ln) != 4 {
+				continue
+			}
+			in := append(append(append([]byte(nil), b[:lenAt]...), ln...), b[at:]...)
+			k := thriftCase{Proto: pn, What: fmt.Sprintf("message headers name length %x", ln)}
+			var err error
+			c.Case()
+			c.Eval(1)
+			var alloc uint64
+			pan := protect(func() { alloc = allocDuring(func() { _, err = p.NewReader(bytes.NewReader(in)).ReadMessage() }) })
+			if pan != "" || err == nil || alloc > 1<<22 {
+				c.Diverge("C08", "Reader.ReadMessage(name length damaged)["+pn+"]", "an error, no panic, bounded allocation", fmt.Sprintf("err=%v alloc=%d %s", err, alloc, pan), "", k)
 			}
 		}
 	}
